@@ -143,7 +143,19 @@ func e4OracleC02(r *e4Result) string {
 			}
 		}
 	}
-	// (1) exactly once onward
+	// (1) exactly once onward. A client that is provably idle (stuck detector) with a QoS2 message
+	// that was never delivered has delivered it zero times for good.
+	if persistent && r.Stuck {
+		count := map[string]int{}
+		for _, d := range r.Deliver {
+			count[d.Tag]++
+		}
+		for _, q := range r.Reqs {
+			if q.Err == nil && q.Kind == "pub" && q.QoS == 2 && count[q.Tag] == 0 {
+				return fmt.Sprintf("QoS2 message %s (idx %d) was never delivered onward and the client is idle (nothing happened for 3 s on a reachable broker): %s", q.Tag, q.Idx, e4Undone(r))
+			}
+		}
+	}
 	if persistent && r.Quiesced {
 		count := map[string]int{}
 		for _, d := range r.Deliver {
